@@ -253,6 +253,39 @@ def _ptrace_shapes(max_dim, maxlen):
     return out
 
 
+def job_qubit_dicke_reduction(tier, rng):
+    """get_qubit_dicke_partial_trace(n): the closed-form one-qubit reduction of |D_a><D_b| equals the explicit partial trace of the library's (proved exact) Dicke vectors, every pair (a,b), n = 2..7 (9)"""
+    bad = None; cnt = 0
+    for n in range(2, 8 if tier == 'quick' else 10):
+        try:
+            Bm = np.asarray(dk.get_dicke_basis(n, 2))
+            a00, a01, a11 = dk.get_qubit_dicke_partial_trace(n)
+            ok = a00.shape == (n + 1,) and a01.shape == (n,) and a11.shape == (n + 1,)
+            for a in range(n + 1):
+                for b in range(n + 1):
+                    r = np.einsum('iaja->ij', np.outer(Bm[a], Bm[b].conj()).reshape(2, 2 ** (n - 1), 2, 2 ** (n - 1)))
+                    ref = np.zeros((2, 2))
+                    if a == b:
+                        ref[0, 0] = a00[a]; ref[1, 1] = a11[a]
+                    if b == a + 1:
+                        ref[1, 0] = a01[a]
+                    if a == b + 1:
+                        ref[0, 1] = a01[b]
+                    cnt += 1
+                    if ok and np.abs(r - ref).max() > 1e-12:
+                        ok = False
+                        bad = bad or dict(n=n, a=a, b=b, reduced=r.real.tolist(), closed_form=ref.tolist())
+            if not ok and bad is None:
+                bad = dict(n=n, problem='shapes')
+        except Exception as ex:
+            from vf.prover import from_repo
+            if not from_repo(ex):
+                raise
+            bad = bad or dict(n=n, exception=f'{type(ex).__name__}: {ex}')
+    return [ob(f'{PROP}.get_qubit_dicke_partial_trace.equals_explicit_reduction[n<={7 if tier == "quick" else 9}]', 'pass' if bad is None else 'refuted', tier='B', backend='native', exhaustive=True,
+               functions=['numqi.dicke:get_qubit_dicke_partial_trace'], evaluations=cnt, distinct_nontrivial=cnt, witness=bad, native=dict(confirmed=bad is not None), sample=dict(n=4, a=1, b=2))]
+
+
 def jobs(tier):
     sh = SHAPES[tier]
     J = []
@@ -269,6 +302,7 @@ def jobs(tier):
         J.append(('job_identity', dict(cname='dicke.partial_trace_ABk_to_AB', shapes=[t])))
     J.append(('job_bounded_ptrace', dict(count=60 if tier == 'quick' else 300)))
     J.append(('job_bounded_dicke', {}))
+    J.append(('job_qubit_dicke_reduction', {}))
     return J
 
 
